@@ -72,6 +72,11 @@ func genC03(t *rapid.T) Case {
 	// scripted conflict fragments before, between and after the random operations
 	for n := rapid.IntRange(0, 3).Draw(t, "scenarios"); n > 0; n-- {
 		sc := GenConflictScenario(t)
+		// a caller that retries: Commit (or the deferred Rollback) once more on the transaction that just ended,
+		// whatever the first Commit returned - nothing may be committed by it and it must not report success
+		if rapid.IntRange(0, 2).Draw(t, "retry") == 0 {
+			sc = append(sc, Op{K: rapid.SampledFrom([]string{"commit", "commit", "rollback"}).Draw(t, "retryKind"), Late: true, Recent: true})
+		}
 		at := rapid.IntRange(0, len(c.Ops)).Draw(t, "scAt")
 		c.Ops = append(c.Ops[:at:at], append(sc, c.Ops[at:]...)...)
 	}
